@@ -28,7 +28,11 @@ def main(argv=None):
              'data in savepoints too; oracle only); a scenario with equally long records of different objects '
              'around a rollback; corpus first (the reproduced TmpStore.reset defect); non-trivial = at least 2 successful '
              'rollbacks, one of them to a savepoint older than a later savepoint; distinct by hash of the case',
-        assumptions=['C12 promises nothing about the in-memory state of an object that was un-added; once such an '
+        assumptions=['generalisation pass: same storage kinds / DB options / explicit managers / extra ops as C11 (see '
+                     'there); family readcur (readCurrent on COMMITTED objects with a second connection committing in '
+                     'between, savepoints and rollbacks: ConflictError / ReadConflictError / success decided by the '
+                     'oracle; a declaration is never withdrawn by a rollback) is judged by its own oracle alone',
+                     'C12 promises nothing about the in-memory state of an object that was un-added; once such an '
                      'object whose state was lost (finding C11:stored-new-object-ghostified-on-abort) is added '
                      'again the rest of the program is outside the claim (counted as tainted-by-C11-finding)',
                      'the blob family is judged by the oracle alone (bytes per blob; savepoint = copy, rollback = '
